@@ -24,6 +24,9 @@ def single_edits(rng, c):
         v0 = next(iter(t[0]))
         out.append(("g_coefficient", dict(c, g=[({**t[0], v0: t[0][v0] + 1}, t[1])] + c["g"][1:])))
         out.append(("g_constant", dict(c, g=[(t[0], t[1] + F(1, 2))] + c["g"][1:])))
+        # tiny edits (one part in 2^20 of the coefficient / 2^-30 on the constant): still different objects
+        out.append(("g_coefficient_tiny", dict(c, g=[({**t[0], v0: t[0][v0] * (1 + F(1, 2 ** 20))}, t[1])] + c["g"][1:])))
+        out.append(("g_constant_tiny", dict(c, g=[(t[0], t[1] + F(1, 2 ** 30))] + c["g"][1:])))
         if len(c["g"]) >= 2 and c["g"][0] != c["g"][1]:
             out.append(("g_order", dict(c, g=[c["g"][1], c["g"][0]] + c["g"][2:])))
     if c["a"]:
